@@ -11,7 +11,7 @@ class C12(PropBase):
     extractors = ["trans"]
     rule = ("schedules of reader runs (segments of 1..40 lines) and silences for 2-5 aircraft; silence lengths delete_after-0.5, "
             "+0.5, 0.5 and 10x delete_after (virtual clock: the time stamps of all rows are shifted back between runs); "
-            "delete_after in {1,5,60,600}; every format as the refreshing frame; -U on/off; a quarter of the schedules with the table display on and a refresh after every frame, the others with refresh intervals -1, 3, 7, 1e5, 2^62 s (on both sides of delete_after). After each run: key set and "
+            "delete_after in {1,5,60,600} (and one-year .. 2^63-1 retention periods, under which nothing heard may ever go); every format as the refreshing frame; -U on/off; a quarter of the schedules with the table display on and a refresh after every frame, the others with refresh intervals -1, 3, 7, 1e5, 2^62 s (on both sides of delete_after). After each run: key set and "
             "last-contact ages against a reference that knows only when each aircraft was last heard, and against the model. "
             "Non-trivial = a schedule in which at least one aircraft expires or survives by less than a second; distinct by schedule.")
     assumptions = ["chrono wall clock is simulated by shifting the public time-stamp fields (DESIGN 4.3); margins of 0.5 s"]
@@ -101,6 +101,22 @@ class C12(PropBase):
                           {"ops": ops, "rows": n})
                 return
             rep.nontriv(("large", n))
+        # retention periods at the far end of the option's range ("never delete"): nothing that is being heard may go,
+        # whatever the arithmetic on `now - delete_after` does with values chrono cannot represent
+        for da in [86400 * 366, 10 ** 10, 8 * 10 ** 12, 10 ** 13, 10 ** 15, 10 ** 16, 2 ** 63 - 1]:
+            for u in (False, True):
+                a1, a2 = 0x4CB001, 0x4CB002
+                lines = [F.df11(5, a1, 0)] + [gen.rand_frame(rng, rng.choice(["df11", "df4", "df5", "tc11"]), a2) for _ in range(36)]
+                ops = ["reset", gen.cfg_op(use_update=u, delete_after=da), "case 0"] + gen.seg(lines) + ["dump"]
+                impl, _, model = run.execute(ops, model=driver_ok)
+                rep.evaluations += len(lines); rep.traces += 1
+                self.corr(rep, impl, model, {"extreme_delete_after": da, "use_update": u}, ops)
+                rows = gen.parse_dump(core.split_cases(impl).get("0", []))
+                if a1 not in rows or a2 not in rows:
+                    self.fail(rep, f"delete_after {da}: aircraft {'%06X' % (a1 if a1 not in rows else a2)} heard less than a second ago is missing after {len(lines)} accepted frames",
+                              {"ops": ops, "delete_after": da})
+                    return
+                rep.nontriv(("extreme", da, u))
         # a frame after expiry starts a fresh row
         for (u, show, upd) in [(False, False, -1), (True, False, -1), (False, True, -1), (True, True, 0), (False, False, 100000),
                                (True, False, 7), (False, True, 3), (True, False, 2 ** 62)]:
